@@ -56,6 +56,11 @@ StartSession(s) == /\ sc' = s /\ pc' = 1
 
 \* ---- operations -----------------------------------------------------------
 OpBuild(slot) == [a |-> "Build", slot |-> slot]
+\* a structure denoting the session's value in a NON-canonical in-memory representation (C06):
+\* "perm" SET OF members in another order, "pad" INTEGER with redundant leading octets,
+\* "defaults" DEFAULT components stored explicitly, "noise" garbage in the unused bits of a
+\* BIT STRING, "true" a non-canonical TRUE.  The abstract value is the same by definition.
+OpBuildRep(slot, rep) == [a |-> "BuildRep", slot |-> slot, rep |-> rep]
 OpEncode(slot, syn) == [a |-> "Encode", slot |-> slot, syn |-> syn]
 OpDecode(slot, syn) == [a |-> "Decode", slot |-> slot, syn |-> syn]     \* decodes wire[syn]
 OpCompare(s1, s2) == [a |-> "Compare", s1 |-> s1, s2 |-> s2]
@@ -114,7 +119,8 @@ Step(obs) == /\ pc <= Len(sc.plan)
         /\ pc' = pc + 1
         /\ UNCHANGED sc
         /\ LET op == sc.plan[pc] IN
-             CASE op.a = "Build" -> Build(op)
+             CASE op.a \in {"Build", "BuildRep"} -> Build(op)
+               [] op.a = "BuildRep" -> Build(op)
                [] op.a = "Encode" -> Encode(op, obs.bytes)
                [] op.a = "DecodeLit" -> DecodeLit(op)
                [] op.a = "StartDecode" -> StartDecode(op)
@@ -128,7 +134,7 @@ SessVal(x) == SameValue(RawEnv, TypeOf(sc), x, sc.val)
 Has(ev, f) == f \in DOMAIN ev
 When(c, name) == IF c THEN {name} ELSE {}
 Faults(op, ev) ==
-  CASE op.a = "Build" ->
+  CASE op.a \in {"Build", "BuildRep"} ->
          IF ~ev.ok THEN {"build-failed"}
          ELSE IF ~ev.wf THEN {"build-projection-malformed"}
          ELSE When(~SessVal(ev.val), "build-projection-differs")
@@ -168,6 +174,23 @@ Faults(op, ev) ==
          IF obj[op.s1].st # "val" \/ obj[op.s2].st # "val" THEN {"no-object"}
          ELSE When((ev.ret = 0) # SameValue(RawEnv, TypeOf(sc), obj[op.s1].v, obj[op.s2].v), "compare-differs")
     [] OTHER -> {"unknown-op"}
+
+\* does the representation change anything for this value?
+RECURSIVE RepApplies(_, _, _)
+RepApplies(T0, v, rep) ==
+  LET T == Resolve(RawEnv, T0) IN
+  CASE T.k \in {"SEQUENCE", "SET"} ->
+         LET cs == AllComps(T) IN
+         \/ (rep = "defaults" /\ \E i \in DOMAIN cs : cs[i].o = "D" /\ ~IsPres(v[i]))
+         \/ \E i \in DOMAIN cs : IsPres(v[i]) /\ RepApplies(cs[i].t, v[i][1], rep)
+    [] T.k = "CHOICE" -> RepApplies(CompByName(T, AltOf(v)).t, AltVal(v), rep)
+    [] T.k = "SEQOF" -> \E i \in DOMAIN v : RepApplies(T.t, v[i], rep)
+    [] T.k = "SETOF" -> (rep = "perm" /\ Len(v) >= 2 /\ \E i \in DOMAIN v : v[i] # v[1])
+                        \/ \E i \in DOMAIN v : RepApplies(T.t, v[i], rep)
+    [] T.k = "INTEGER" -> rep = "pad" /\ IntRepr(T.c) = "wide"
+    [] T.k = "BITS" -> rep = "noise" /\ v.n % 8 # 0
+    [] T.k = "BOOLEAN" -> rep = "true" /\ v
+    [] OTHER -> FALSE
 
 \* ---- invariants (the properties, stated on the model) ----------------------
 RoundTrip == \A i \in Slots : obj[i].st = "val" => SameValue(RawEnv, TypeOf(sc), obj[i].v, sc.val)
